@@ -206,3 +206,42 @@ fn c15_send_announce_with_any_provider() {
     kani::cover!(r.2);
     kani::cover!(r.3 > 0);
 }
+
+
+/// a provider that offers one small TLV (4-octet value; PATH_TRACE or another propagated type) from an arbitrary sender, once
+struct OneSmallTlv { buf: [u8; 4], done: bool, parent: PortIdentity, offered: usize }
+impl ForwardedTLVProvider for OneSmallTlv {
+    fn next_if_smaller(&mut self, max_size: usize) -> Option<ForwardedTLV<'_>> {
+        if self.done || max_size < 8 { return None; }
+        self.done = true;
+        self.offered += 1;
+        // PATH_TRACE (dropped when path trace is on) or an ordinary propagated TLV (ALTERNATE_TIME_OFFSET_INDICATOR)
+        let ty: u16 = if kani::any() { 0x0008 } else { 0x0009 };
+        let sender = if kani::any() { self.parent } else { any_port_identity() };
+        Some(ForwardedTLV { tlv: Tlv { tlv_type: TlvType::from_primitive(ty), value: (&self.buf[..]).into() }, sender_identity: sender })
+    }
+}
+
+/// C17 only: lock discipline of send_announce with path trace on or off and a provider that yields one TLV -- the
+/// branch in which the TLV loop and the per-TLV parent lookup run. Only ChkLock's own assertions (acquisition
+/// depth 0 inside every with_ref / with_mut), "no write acquisition" and "two actions" are checked here; the
+/// contents are the business of c15_send_announce_one_tlv (thorough). Port fixed to MASTER.
+#[kani::proof]
+#[kani::unwind(34)]
+#[kani::stub(PortActionIterator::from, PortActionIterator::verif_recording_from)]
+#[kani::stub(Message::serialize, Message::verif_recording_serialize)]
+#[kani::stub(TlvSetBuilder::add, TlvSetBuilder::verif_contract_add)]
+#[kani::stub(crate::time::Interval::as_core_duration, stub_as_core_duration)]
+fn c17_send_announce_lock_discipline_with_tlv() {
+    let inst0 = any_instance_state(1);
+    let lock = ChkLock::new(inst0);
+    mk_port!(port, &lock, PortState::Master, Running);
+    let parent = lock.peek().parent_ds.parent_port_identity;
+    let mut provider = OneSmallTlv { buf: [0x5a; 4], done: false, parent, offered: 0 };
+    lock.reset_counters();
+    let actions = run_actions!(port.handle_announce_timer(&mut provider));
+    assert!(lock.n_mut.get() == 0);
+    assert!(actions.n == 2);
+    kani::cover!(provider.offered == 1 && lock.peek().path_trace_ds.enable);
+    kani::cover!(provider.offered == 1 && !lock.peek().path_trace_ds.enable);
+}
